@@ -8,12 +8,13 @@
         center unless it is preserved
      3  every region has origin (sa%, sa%) and extent ((100-2sa)%, (100-2sa)%)
      4  merged: the remaining regions are pairwise different in (timing, writing mode in the source, resulting
-        displayAlign); redirected: the body keeps its shape, every reference names a remaining region, references
+        displayAlign, and — when text alignment is preserved — their own textAlign); redirected: the body keeps its shape, every reference names a remaining region, references
         to a remaining region are untouched, references to a removed region all go to one remaining region with
         the same timing
      5  text timeline: at every t the visible leaves (TTML2 semantics of Spec/IsdSpec.v), tagged with their
         paragraph, are the same multiset before and after — for documents without display/visibility/opacity
-     6  computed colour / background / alignment of a snapshot
+     6  computed colour / background / alignment of a snapshot; preserved alignment: the static tts:textAlign cascade of every
+        element in every region is unchanged (computed_align, at the end of this file)
    (totality and idempotence are stated directly in Properties/C16.v) *)
 From Coq Require Import Permutation.
 From TT Require Import Model.Doc Gen.StyleTables Spec.IsdSpec.
@@ -87,17 +88,23 @@ Definition source_wm (d : doc) (a : attrs) : option value :=
   end.
 Definition enum_eqb (a b : option value) : bool :=
   match a, b with Some (VEnum x), Some (VEnum y) => x =? y | _, _ => false end.
-Definition same_class (d : doc) (a b : attrs) : bool :=
+(* "resulting alignment": the resulting displayAlign and, when text alignment is preserved, the region's own textAlign
+   (both absent, or both the same value) — were two regions that differ in it merged, the paragraphs of the dropped one
+   would no longer compute the alignment they had *)
+Definition oenum_eqb (a b : option value) : bool :=
+  match a, b with Some (VEnum x), Some (VEnum y) => x =? y | None, None => true | _, _ => false end.
+Definition same_class (pta : bool) (d : doc) (a b : attrs) : bool :=
   same_timing a b && enum_eqb (source_wm d a) (source_wm d b) &&
-  enum_eqb (sget (e_styles a) p_DisplayAlign) (sget (e_styles b) p_DisplayAlign).
+  enum_eqb (sget (e_styles a) p_DisplayAlign) (sget (e_styles b) p_DisplayAlign) &&
+  (negb pta || oenum_eqb (sget (e_styles a) p_TextAlign) (sget (e_styles b) p_TextAlign)).
 Fixpoint pairwise {A} (f : A -> A -> bool) (l : list A) : bool :=
   match l with [] => true | x :: l' => forallb (fun y => f x y) l' && pairwise f l' end.
 (* remaining regions are regions of the source, and no two of them are in the same class *)
-Definition merged_b (d d' : doc) : bool :=
+Definition merged_b (pta : bool) (d d' : doc) : bool :=
   forallb (fun r => match e_id (eattrs r) with Some i => match find_region d i with Some _ => true | None => false end | None => false end)
           (d_regions d') &&
-  pairwise (fun a b => negb (same_class d a b)) (map eattrs (d_regions d')).
-Definition merged (d d' : doc) : Prop := merged_b d d' = true.
+  pairwise (fun a b => negb (same_class pta d a b)) (map eattrs (d_regions d')).
+Definition merged (pta : bool) (d d' : doc) : Prop := merged_b pta d d' = true.
 
 (* every reference of the result names a region of the result *)
 Definition refs_resolved (d' : doc) : Prop :=
@@ -180,3 +187,17 @@ Definition computed_attrs_b (pta : bool) (color bg : option Z) (a : attrs) : boo
   end.
 Definition computed_b (pta : bool) (color bg : option Z) (snapshot : list elem) : bool :=
   forallb (computed_attrs_b pta color bg) (flat_map elems_of snapshot).
+
+(* preserved alignment: the text alignment TTML computes for the last element of a path (root of the body first) that is shown in
+   region r, in a document without tts:textAlign animation — the nearest specified value going up the path, else the region's,
+   else the document's initial value, else the default *)
+Definition own_align (a : attrs) : option value := sget (e_styles a) p_TextAlign.
+Fixpoint cascade_align (inh : option value) (path : list attrs) : option value :=
+  match path with
+  | [] => inh
+  | a :: path' => cascade_align (match own_align a with Some v => Some v | None => inh end) path'
+  end.
+Definition initial_align (d : doc) : option value :=
+  match sget (d_initials d) p_TextAlign with Some v => Some v | None => sget initial_values p_TextAlign end.
+Definition computed_align (d : doc) (r : attrs) (path : list attrs) : option value :=
+  cascade_align (match own_align r with Some v => Some v | None => initial_align d end) path.
